@@ -1,9 +1,10 @@
 (* C11 - Surjection proofs: complete, exact and canonically encoded.
    Theorems about the executable model Model/Surjection.v (the functions the correspondence check runs
    against the C implementation).  No premise about the curve is used by any theorem of this file.
-   Not proved here (listed in the evidence): completeness, generate => verify (needs the group law). *)
+   [MF] = stated under the explicit premise MathFacts P (group law of the curve, p and n prime) and
+   n < 2^256; all other theorems need no premise about the curve. *)
 From Coq Require Import ZArith List Bool.
-Require Import Spec.Params Spec.Curve Spec.Bytes Model.Base Model.Borromean Model.Surjection Proofs.SurjectionProofs.
+Require Import Spec.Params Spec.Curve Spec.Bytes Model.Base Model.Borromean Model.Surjection Proofs.MathFacts Proofs.SurjectionProofs.
 Import ListNotations.
 Local Open Scope Z_scope.
 
@@ -100,3 +101,37 @@ Theorem initialize_abstains_only_inner : forall tags k out n_max seed,
   exists c, pick_n (Z.to_nat k) c (Z.of_nat (length tags)) tags out (zeros 32) None = None.
 Proof. exact initialize_abstains_only_inner_lemma. Qed.
 Print Assumptions initialize_abstains_only_inner.
+
+(* [MF] completeness of one Borromean ring (the way this module and the whitelist module use it): a signature
+   made for the ring s_pre ++ [signer] ++ s_suf with secret sec, nonce k and non-zero forged scalars over
+   keys of which none is the point at infinity verifies; the signer's scalar it writes is in (0, n) *)
+Theorem borromean_single_ring_sign_verifies : forall P, MathFacts P -> forall m s_pre sx s_suf p_pre p_suf k sec e0 s',
+  length s_pre = length p_pre -> length s_suf = length p_suf ->
+  0 <= k < cn P -> 0 <= sec < cn P ->
+  forallb nz s_pre = true -> forallb nz s_suf = true ->
+  forallb ninf p_pre = true -> forallb ninf p_suf = true ->
+  is_inf (Curve.pmul P sec (Curve.G P)) = false ->
+  borromean_sign P (s_pre ++ sx :: s_suf) (p_pre ++ Curve.pmul P sec (Curve.G P) :: p_suf) [k] [sec]
+                 [length (s_pre ++ sx :: s_suf)] [length s_pre] 1 m = Some (e0, s') ->
+  borromean_verify P e0 s' (p_pre ++ Curve.pmul P sec (Curve.G P) :: p_suf) [length (s_pre ++ sx :: s_suf)] 1 m = true /\
+  exists snew, s' = s_pre ++ snew :: s_suf /\ 0 < snew < cn P /\ length e0 = 32%nat.
+Proof. exact ring1_sign_verifies. Qed.
+Print Assumptions borromean_single_ring_sign_verifies.
+
+(* [MF] generate => verify: if generation succeeds with a blinding-key difference bkey that matches the ring
+   key at the signer's position (output - input_index = bkey*G), the proof it writes verifies against the same
+   ephemeral tags.  Further premises: one ring key per set bitmap bit (bitmaps without padding bits), no ring
+   key at infinity (no selected input equals the output), hash-derived forged scalars non-zero. *)
+Theorem generate_verifies : forall P, MathFacts P -> cn P < 2 ^ 256 ->
+  forall pr in_tags out_tag input_index in_key out_key pr' pubs ridx bkey,
+  sp_n pr <= 256 ->
+  compute_public_keys P in_tags 0 (sp_used pr) (tag_load out_tag) input_index 0 = (pubs, ridx) ->
+  bkey = sc_add P (fst (sc_of_b32 P out_key)) (sc_neg P (fst (sc_of_b32 P in_key))) ->
+  length pubs = Z.to_nat (n_used_inputs pr) -> 0 <= ridx < n_used_inputs pr ->
+  nth (Z.to_nat ridx) pubs None = Curve.pmul P bkey (Curve.G P) ->
+  forallb ninf pubs = true ->
+  (forall bs, genrand P (Z.to_nat (n_used_inputs pr)) bkey = Some bs -> forallb nz bs = true) ->
+  generate P pr in_tags out_tag input_index in_key out_key = Some pr' ->
+  verify P pr' in_tags out_tag = true.
+Proof. exact generate_verifies_lemma. Qed.
+Print Assumptions generate_verifies.
